@@ -198,7 +198,12 @@ func intdataMain(mode string, a args) {
 		for c := 0; c < n; c++ {
 			o.put(J{"op": "reset", "case": c})
 			var vals []idVal
+			hot := 0
 			pick := func(set bool) int {
+				// branching: several operations applied to the SAME earlier value expose aliasing between its descendants
+				if hot > 0 && hot <= len(vals) && vals[hot-1].isSet == set && r.Intn(2) == 0 {
+					return hot
+				}
 				var idx []int
 				for i, v := range vals {
 					if v.isSet == set {
@@ -227,14 +232,16 @@ func intdataMain(mode string, a args) {
 						}
 					}
 					op = idOp{Op: "NewIntSet", Args: as}
-				case x < 5:
+				case x < 4:
 					if i := pick(true); i > 0 {
 						op = idOp{Op: "Insert", A: i, Args: []int{r.Intn(dom)}}
+						hot = i
 					}
 				case x < 6:
 					i, j := pick(true), pick(true)
 					if i > 0 {
 						op = idOp{Op: "Union", A: i, B: j}
+						hot = i
 					}
 				case x < 7:
 					l := r.Intn(4)
